@@ -6,16 +6,16 @@ PID = "C02"
 PROP = "C02"
 
 
-def sym(c, strat, n, mode, b):
-    pl.sym_query(c, PROP, strat, n, mode, b)
+def sym(c, strat, n, mode, b, feats=1):
+    pl.sym_query(c, PROP, strat, n, mode, b, feats)
 
 
-def replay(inputs, label, strat, n, mode, b):
-    return pl.replay_query(inputs, label, PROP, strat, n, mode, b)
+def replay(inputs, label, strat, n, mode, b, feats=1):
+    return pl.replay_query(inputs, label, PROP, strat, n, mode, b, feats)
 
 
-def validate(inputs, strat, n, mode, b):
-    return pl.validate_query(inputs, PROP, strat, n, mode, b)
+def validate(inputs, strat, n, mode, b, feats=1):
+    return pl.validate_query(inputs, PROP, strat, n, mode, b, feats)
 
 
 def _cfg_for(name):
@@ -39,6 +39,9 @@ def _cfg_for(name):
                     if tier != "quick" and slow and n == 3 and b == 3 and mode != "none":
                         continue
                     out.append(dict(strat=name, n=n, mode=mode, b=b))
+        if name in ("RandomSampling", "UncertaintySampling[margin_sampling]", "GreedySamplingX", "QueryByCommittee[KL_divergence]"):
+            # two features: feature-row candidates are then a matrix whose size differs from its length
+            out.append(dict(strat=name, n=3, mode="rows", b=4, feats=2))
         return out
     return cfg
 
